@@ -1,5 +1,6 @@
 """C01, C10, C11, C13: histories of calls (spec/Distiller.tla, spec/trace/CallsTrace.tla)."""
 import random
+import props_PN
 from propdefs import bfs
 
 N_DOCS = 23
@@ -176,7 +177,7 @@ PROPS = {
                 rule="cases = groups: one document through many option tuples (all 16 log sets x algo x skip x url, from the TLC model); "
                      "non-trivial = calls that returned a result",
                 nontrivial_key="returned_result", assumptions=ASSUME, exhaustive_tiers=()),
-    "C11": dict(stages=[dict(stage(c11_groups, 150, 1000), two_orders=True)],
+    "C11": dict(stages=[dict(stage(c11_groups, 150, 1000), two_orders=True), props_PN.STAGE_C11],
                 rule="cases = groups: identical calls repeated, Apply vs ApplyForReader vs ApplyForFile on the same bytes, shuffled with other calls; "
                      "non-trivial = calls that returned a result",
                 nontrivial_key="returned_result", assumptions=ASSUME, exhaustive_tiers=()),
